@@ -152,8 +152,8 @@ def book_model_check(ctx, name, table, workers=16, timeout=1500, coverage=False,
 
 
 def long_cfg_text(ids, timeout_on=True, real_time=False, max_serial=0, max_now=0, gen_depth=0):
-    gen = gen_depth > 0
-    inv = list(LONG_INV) + (["GenEmit"] if gen else [])
+    gen = gen_depth != 0
+    inv = list(LONG_INV) + (["GenEmit"] if gen_depth > 0 else [])
     return ("CONSTANTS\n  Ids = {%s}\n  TimeoutOn = %s\n  RealTime = %s\n  MaxSerial = %d\n  MaxNow = %d\n  GenDepth = %d\n"
             "INIT Init\nNEXT %s\n%s%s\n") % (
         ", ".join(str(i) for i in ids), "TRUE" if timeout_on else "FALSE", "TRUE" if real_time else "FALSE",
@@ -192,6 +192,28 @@ def long_generate(ctx, name, ids, depth, num, real_time=False, timeout_on=True, 
     if len(beh) < num:
         raise MachineryError("generator BookLong/%s printed %d of %d histories" % (name, len(beh), num))
     return r, beh[:num]
+
+
+def long_stream(ctx, name, ids, depth, real_time=False, timeout_on=True, timeout=1500, seed=None):
+    """One very long history: BookLong streams one line per step (GenDepth < 0), so no history ghost grows in the state."""
+    cfg = os.path.join(ctx.scratch, "gen_%s.cfg" % name)
+    with open(cfg, "w") as f:
+        f.write(long_cfg_text(ids, timeout_on=timeout_on, real_time=real_time, gen_depth=-1))
+    outp = os.path.join(ctx.scratch, "gen_%s.out" % name)
+    r = SLOTS.run(1, ctx.tlc, "BookLong", cfg, workers=1, timeout=timeout, heap="3g", simulate="num=1", depth=depth + 1,
+                  seed=(ctx.seed if seed is None else seed), stdout_path=outp)
+    if not r.ok:
+        raise MachineryError("generator BookLong/%s violates %s on the unchanged specification:\n%s"
+                             % (name, r.violated, r.violation_text[:3000]))
+    h = []
+    with open(outp, errors="replace") as f:
+        for line in f:
+            if line.startswith('"@@S'):
+                h.append(json.loads(json.loads(line)[3:]))
+    os.unlink(outp)
+    if len(h) < depth:
+        raise MachineryError("generator BookLong/%s streamed %d of %d steps" % (name, len(h), depth))
+    return r, [h[:depth]]
 
 
 # ---- replay with the hook (timeout 1h or none): many behaviours per process ----------------------------
